@@ -3,7 +3,7 @@ import asyncio
 import random
 
 from harness.legs import cfg_text, leg_m, leg_mutant, leg_r, leg_t
-from harness.vloop import VLoop
+from harness.vloop import Falsy, VLoop
 
 SPEC = "Queue"
 MANIFEST = dict(
@@ -37,7 +37,9 @@ class QueueDriver:
         from haiway.utils.queue import AsyncQueue
         self.loop = VLoop()
         n = len(init["buf"]) if init else 0
-        self.q = AsyncQueue(*range(1, n + 1), loop=self.loop)
+        # the elements are FALSY objects (an element is an arbitrary user value - None, 0, an empty container ...):
+        # element number k travels as Falsy(k) and is reported by its number
+        self.q = AsyncQueue(*[Falsy(i) for i in range(1, n + 1)], loop=self.loop)
         self.n = n
         self.task = None
         self.creq = False
@@ -49,7 +51,7 @@ class QueueDriver:
     def apply(self, name, args):
         if name == "Enqueue":
             k = args[0]
-            es = [self.n + i + 1 for i in range(k)]
+            es = [Falsy(self.n + i + 1) for i in range(k)]
             try:
                 self.q.enqueue(*es)
             except RuntimeError:
@@ -86,7 +88,8 @@ class QueueDriver:
             return ("cancelled", 0) if self.creq else ("exc", "cancel")
         e = t.exception()
         if e is None:
-            return ("val", t.result())
+            r = t.result()
+            return ("val", r.tag if isinstance(r, Falsy) else f"foreign element {r!r}")
         if isinstance(e, StopAsyncIteration):
             return ("exc", "stop")
         if e is self.err:
